@@ -851,7 +851,13 @@ def _drops_pending(F, path):
         written = any(e["callee"].endswith("StorageTxn::set_task") and _has(e["args"], lambda v: v[0] == "C" and v[1] == r["id"]) for e in path.events)
         if written:
             continue
-        tests = [(a, o) for (a, o, _bb) in path.atoms if a[0] == "variant" and _has(a[1], lambda v: v[0] == "C" and v[1] == r["id"])]
+        def direct(v):
+            # the removed value itself, or a field of it - not the result of passing it through another call
+            # (Option::filter and friends turn a pending Some into None)
+            while v and v[0] == "F":
+                v = v[1]
+            return bool(v) and v[0] == "C" and v[1] == r["id"]
+        tests = [(a, o) for (a, o, _bb) in path.atoms if a[0] == "variant" and direct(a[1])]
         if tests and tests[-1][1] == "None":
             continue
         return True
